@@ -102,7 +102,7 @@ PARSER_NOTE = ("Trusted: Lean kernel; model is a hand port of parser.go validate
 CLAIMED = {
     'C01': {
         'text': "Proved in Lean for every byte string, decoder satisfying DecOK and classifier: the parser model's nodes tile the input "
-                "(c01_parse_tiling, c01_spans_chain, restore discipline lemmas) and, end to end over parse + bindTypes + bindInputs + renderSQL, the SQL sent is the in-order concatenation of the same spans with each expression span replaced by its expansion and each bypass span copied verbatim (c01_end_to_end); a query without expressions is sent byte for byte (c01_no_expression_unchanged); the model is tied to parser.go by per-run differential "
+                "(c01_parse_tiling, c01_spans_chain, restore discipline lemmas) and, end to end over parse + bindTypes + bindInputs + renderSQL, the SQL sent is the in-order concatenation of the same spans with each expression span replaced by its expansion and each bypass span copied verbatim (c01_end_to_end); a query without expressions is sent byte for byte (c01_no_expression_unchanged); expression spans are exact - every expression node parsed on its own yields exactly that node (c01_expr_spans_exact_go, a relational pass over all parser functions), so no node swallows bytes around its expression; the model is tied to parser.go by per-run differential "
                 "correspondence (L1: nodes; L2: SQL at the driver, bypass chunks verbatim and in order). Proof is the right level because the property "
                 "quantifies over all byte strings and the defect class (a helper that consumes without restoring) is invisible to sampled tests.",
         'note': PARSER_NOTE + "; what each expansion contains is the subject of C03-C05",
@@ -234,7 +234,7 @@ NOT_CLAIMED_REASON = {}
 
 _P = 'SqlairProofs.Props.'
 PROP_MODULES = {
-    'C01': [_P + 'Parser', _P + 'Bind', _P + 'E2E'], 'C02': [_P + 'C02', _P + 'Opaque'], 'C19': [_P + 'Parser', _P + 'C19Shift'],
+    'C01': [_P + 'Parser', _P + 'Bind', _P + 'E2E', _P + 'Exact'], 'C02': [_P + 'C02', _P + 'Opaque'], 'C19': [_P + 'Parser', _P + 'C19Shift'],
     'C03': [_P + 'Bind'], 'C04': [_P + 'Bind'], 'C05': [_P + 'Bind'], 'C07': [_P + 'Bind', _P + 'E2E', _P + 'Typed'], 'C08': [_P + 'Bind', _P + 'Typed'], 'C16': [_P + 'Bind'],
     'C06': [_P + 'Scan'], 'C09': [_P + 'Cache'], 'C10': [_P + 'Cache'], 'C11': [_P + 'Cache'],
     'C12': [_P + 'Runtime'], 'C13': [_P + 'Runtime'], 'C14': [_P + 'Runtime'], 'C15': [_P + 'Runtime'], 'C20': [_P + 'Runtime'],
